@@ -625,19 +625,21 @@ class PTA:
             fld = mangle(cname, target.attr)
             init_self = (f.kind == 'function' and f.name == '__init__' and isinstance(target.value, ast.Name)
                          and f.param_names and target.value.id == f.param_names[0])
+            via_setter = set()
             for o in bases:
                 if o.kind in ('inst', 'ext_inst') and o.cls is not None:
                     setter = o.cls.lookup_setter(target.attr)
                     if setter is not None:
                         self.bind_call(setter, o, [v], {}, st)
+                        via_setter.add(o)
                         continue
                 if o.kind == 'module':
                     m = o.extra[1]
                     self.add(('G', m.name, target.attr), v)
                     continue
                 self.add(('F', o, fld), v)
-            if record:
-                self.mutations.append(Mutation(f, st, kind or 'attr', fld, target.value, set(bases),
+            if record and (set(bases) - via_setter or not bases):
+                self.mutations.append(Mutation(f, st, kind or 'attr', fld, target.value, set(bases) - via_setter,
                                                init_self=init_self))
         elif isinstance(target, ast.Subscript):
             bases = self.ev(target.value)
